@@ -113,7 +113,7 @@ func ruleDFIDENT(c *Ctx, r *Report) {
 					continue
 				}
 				if pt, ok := al.Type().(*types.Pointer); ok && types.Identical(pt.Elem(), pr.Type) {
-					if fn == pr.Parse {
+					if fn == pr.Parse || c.reachedOnlyFrom(fn, pr.Parse, 0) {
 						fresh++
 					} else {
 						r.bad("DF-FRESH", "alloc|"+fnName(fn), c.instrPos(in), "a parser is allocated outside Parse (pooled / cached parsers carry the default field of an earlier call into later ones)")
@@ -127,7 +127,7 @@ func ruleDFIDENT(c *Ctx, r *Report) {
 	for _, b := range pr.Parse.Blocks {
 		for _, in := range b.Instrs {
 			if call, ok := in.(*ssa.Call); ok && call.Call.StaticCallee() == pr.ParseLoop {
-				if _, ok := c.resolve(call.Call.Args[0], nil).(*ssa.Alloc); ok {
+				if recv := c.resolve(call.Call.Args[0], nil); c.freshPtrVal(recv, 0) {
 					usesFresh = true
 				}
 			}
@@ -976,16 +976,12 @@ func ruleRECONCE(c *Ctx, r *Report) {
 		bad := map[string]string{}
 		for _, p := range paths {
 			seen := map[string]int{}
-			for _, in := range p.Instrs {
-				if call, ok := in.(*ssa.Call); ok && call.Call.StaticCallee() == f {
-					var ks []string
-					for _, a := range call.Call.Args {
-						ks = append(ks, c.key(a, p.Env))
-					}
-					k := strings.Join(ks, ",")
+			for _, pc := range p.Calls {
+				if pc.Call.Call.StaticCallee() == f {
+					k := strings.Join(pc.Args, ",") // as the arguments were when the call was met
 					seen[k]++
 					if seen[k] == 2 {
-						bad[k] = c.instrPos(in)
+						bad[k] = c.instrPos(pc.Call)
 					}
 				}
 			}
@@ -1014,21 +1010,38 @@ func rulePARSEINPUT(c *Ctx, r *Report) {
 	}
 	fn := pr.Parse
 	n := 0
-	for _, b := range fn.Blocks {
-		for _, in := range b.Instrs {
-			if call, ok := in.(*ssa.Call); ok && call.Call.StaticCallee() == lr.LexCtor && len(call.Call.Args) >= 1 {
-				n++
-				k := c.key(call.Call.Args[0], nil)
-				if k == "$0" {
-					r.ok(rule, "lexer-input", c.instrPos(in), "lex.Lex(input)")
-				} else {
-					r.bad(rule, "lexer-input", c.instrPos(in), "the lexer is constructed on "+k+" instead of the query text itself: characters are removed or changed before tokenisation (escaped or quoted text at the edges is not delivered verbatim, and the tokens no longer tile the input)")
+	// the lexer construction, in Parse or in a private helper of it (read in Parse's terms)
+	for _, f := range c.Funcs {
+		if fnPkgPath(f) != pkgRoot {
+			continue
+		}
+		for _, b := range f.Blocks {
+			for _, in := range b.Instrs {
+				call, ok := in.(*ssa.Call)
+				if !ok || call.Call.StaticCallee() != lr.LexCtor || len(call.Call.Args) < 1 {
+					continue
 				}
+				in := in
+				c.withContexts(f, fn, 0, func(_ []Atom) {
+					n++
+					k := c.key(call.Call.Args[0], nil)
+					if k == "$0" {
+						r.ok(rule, "lexer-input", c.instrPos(in), "lex.Lex(input)")
+					} else {
+						r.bad(rule, "lexer-input", c.instrPos(in), "the lexer is constructed on "+k+" instead of the query text itself: characters are removed or changed before tokenisation (escaped or quoted text at the edges is not delivered verbatim, and the tokens no longer tile the input)")
+					}
+				})
 			}
 		}
+	}
+	loopKey := fnName(pr.ParseLoop) + "("
+	for _, b := range fn.Blocks {
 		if iff, ok := b.Instrs[len(b.Instrs)-1].(*ssa.If); ok {
 			for _, a := range c.atoms(iff.Cond, true, nil) {
 				mentions := func(s string) bool {
+					if strings.Contains(s, loopKey) {
+						return false // a test on what the parse loop returned
+					}
 					return s == "$0" || strings.HasPrefix(s, "$0[") || strings.Contains(s, "($0") || strings.Contains(s, ",$0") || strings.HasPrefix(s, "len($0")
 				}
 				if mentions(a.Subj) || mentions(a.Val) {
